@@ -259,8 +259,10 @@ CORPUS = [
 
 
 def generate(rng, n, tier):
+    from props import corners
+    _corner = corners.to_json_cases() + corners.parse_cases()
     g = Gen(rng, pct_strings=False, max_depth=2)
-    cases = []
+    cases = list(_corner)
     for t in CORPUS:
         c = make_case(t)
         if c is not None:
